@@ -2,7 +2,7 @@
    Only statements, `exact`, Print Assumptions and non-vacuity examples. *)
 From Coq Require Import List Bool Arith Reals Lra Sorted.
 Import ListNotations.
-From PS Require Import Num RLemmas Valid ModelKernels ModelFuncs ModelAPI Spec SyncDefs Lem_IsiProps Lem_Transform Lem_Transform2 Lem_API Lem_WF Lem_API2 Lem_API3 Lem_API4.
+From PS Require Import Num RLemmas Valid ModelKernels ModelFuncs ModelAPI Spec SyncDefs Lem_IsiProps Lem_Transform Lem_Transform2 Lem_API Lem_WF Lem_API2 Lem_API3 Lem_API4 Lem_API5 Lem_API6 Lem_API7 Lem_API8.
 Require Import PS.Props.PropTac.
 Local Open Scope R_scope.
 
@@ -253,6 +253,217 @@ Print Assumptions C08_order_sign_change_refuted_for_empty_input.
 
 (* non-vacuity: the pair on which the SPIKE mirror relation used to fail (lone spike on t_start,
    repaired by fix commit 6b5df87) is a valid input, and mirroring keeps validity *)
+(* ---- from Lem_API5.v ---- *)
+Theorem C08_isi_matrix_shift : forall eps cy m iv c l idx ts te,
+  Forall (vtrain ts te) l -> iv_ok ts te iv ->
+  isi_distance_matrix ROps eps cy false m (shift_iv c iv) (map (shift_train c) l) idx
+  = isi_distance_matrix ROps eps cy false m iv l idx.
+Proof. exact isi_matrix_shift. Qed.
+Print Assumptions C08_isi_matrix_shift.
+Theorem C08_spike_matrix_shift : forall eps cy m ri iv c l idx ts te,
+  Forall (vtrain ts te) l -> iv_ok ts te iv ->
+  spike_distance_matrix ROps eps cy false m ri (shift_iv c iv) (map (shift_train c) l) idx
+  = spike_distance_matrix ROps eps cy false m ri iv l idx.
+Proof. exact spike_matrix_shift. Qed.
+Print Assumptions C08_spike_matrix_shift.
+Theorem C08_sync_matrix_shift : forall eps cy mt m iv c l idx ts te,
+  Forall (vtrain ts te) l -> iv_ok ts te iv ->
+  spike_sync_matrix ROps eps cy false mt m (shift_iv c iv) (map (shift_train c) l) idx
+  = spike_sync_matrix ROps eps cy false mt m iv l idx.
+Proof. exact sync_matrix_shift. Qed.
+Print Assumptions C08_sync_matrix_shift.
+Theorem C08_isi_matrix_scale : forall eps cy m iv k l idx ts te, 0 < k ->
+  Forall (vtrain ts te) l -> iv_ok ts te iv ->
+  isi_distance_matrix ROps eps cy false (k * m) (scale_iv k iv) (map (scale_train k) l) idx
+  = isi_distance_matrix ROps eps cy false m iv l idx.
+Proof. exact isi_matrix_scale. Qed.
+Print Assumptions C08_isi_matrix_scale.
+Theorem C08_spike_matrix_scale : forall eps cy m ri iv k l idx ts te, 0 < k ->
+  Forall (vtrain ts te) l -> iv_ok ts te iv ->
+  spike_distance_matrix ROps eps cy false (k * m) ri (scale_iv k iv) (map (scale_train k) l) idx
+  = spike_distance_matrix ROps eps cy false m ri iv l idx.
+Proof. exact spike_matrix_scale. Qed.
+Print Assumptions C08_spike_matrix_scale.
+Theorem C08_sync_matrix_scale : forall eps cy mt m iv k l idx ts te, 0 < k ->
+  Forall (vtrain ts te) l -> iv_ok ts te iv ->
+  spike_sync_matrix ROps eps cy false (k * mt) (k * m) (scale_iv k iv) (map (scale_train k) l) idx
+  = spike_sync_matrix ROps eps cy false mt m iv l idx.
+Proof. exact sync_matrix_scale. Qed.
+Print Assumptions C08_sync_matrix_scale.
+Theorem C08_isi_matrix_mirror : forall eps cy m l idx ts te, Forall (vtrain ts te) l ->
+  isi_distance_matrix ROps eps cy false m None (map mirror_tr l) idx
+  = isi_distance_matrix ROps eps cy false m None l idx.
+Proof. exact isi_matrix_mirror. Qed.
+Print Assumptions C08_isi_matrix_mirror.
+Theorem C08_spike_matrix_mirror : forall eps cy m ri l idx ts te, Forall (vtrain ts te) l ->
+  spike_distance_matrix ROps eps cy false m ri None (map mirror_tr l) idx
+  = spike_distance_matrix ROps eps cy false m ri None l idx.
+Proof. exact spike_matrix_mirror. Qed.
+Print Assumptions C08_spike_matrix_mirror.
+Theorem C08_sync_matrix_mirror : forall eps cy mt m l idx ts te, Forall (vtrain ts te) l ->
+  spike_sync_matrix ROps eps cy false mt m None (map mirror_tr l) idx
+  = spike_sync_matrix ROps eps cy false mt m None l idx.
+Proof. exact sync_matrix_mirror. Qed.
+Print Assumptions C08_sync_matrix_mirror.
+Theorem C08_auto_threshold_shift : forall c (l : list (@train R)),
+  default_thresh_sq ROps (map (shift_train c) l) = default_thresh_sq ROps l.
+Proof. exact default_thresh_sq_shift_gen. Qed.
+Print Assumptions C08_auto_threshold_shift.
+Theorem C08_auto_threshold_scale : forall k (l : list (@train R)), 0 < k ->
+  default_thresh_sq ROps (map (scale_train k) l) = k * k * default_thresh_sq ROps l.
+Proof. exact default_thresh_sq_scale_gen. Qed.
+Print Assumptions C08_auto_threshold_scale.
+Theorem C08_auto_threshold_mirror : forall (l : list (@train R)) ts te, Forall (vtrain ts te) l ->
+  default_thresh_sq ROps (map mirror_tr l) = default_thresh_sq ROps l.
+Proof. exact default_thresh_sq_mirror. Qed.
+Print Assumptions C08_auto_threshold_mirror.
+
+(* ---- from Lem_API6.v ---- *)
+Theorem C08_isi_profile_multi_shift : forall eps cy m c l idx ts te, Forall (vtrain ts te) l ->
+  isi_profile_multi ROps eps cy false m (map (shift_train c) l) idx
+  = rmap (shift_pwc c) (isi_profile_multi ROps eps cy false m l idx).
+Proof. exact isi_profile_multi_shift. Qed.
+Print Assumptions C08_isi_profile_multi_shift.
+Theorem C08_isi_profile_multi_scale : forall eps cy m k l idx ts te, 0 < k -> Forall (vtrain ts te) l ->
+  isi_profile_multi ROps eps cy false (k * m) (map (scale_train k) l) idx
+  = rmap (scale_pwc k) (isi_profile_multi ROps eps cy false m l idx).
+Proof. exact isi_profile_multi_scale. Qed.
+Print Assumptions C08_isi_profile_multi_scale.
+Theorem C08_spike_profile_multi_shift : forall eps cy m ri c l idx ts te, Forall (vtrain ts te) l ->
+  spike_profile_multi ROps eps cy false m ri (map (shift_train c) l) idx
+  = rmap (shift_pwl c) (spike_profile_multi ROps eps cy false m ri l idx).
+Proof. exact spike_profile_multi_shift. Qed.
+Print Assumptions C08_spike_profile_multi_shift.
+Theorem C08_spike_profile_multi_scale : forall eps cy m ri k l idx ts te, 0 < k -> Forall (vtrain ts te) l ->
+  spike_profile_multi ROps eps cy false (k * m) ri (map (scale_train k) l) idx
+  = rmap (scale_pwl k) (spike_profile_multi ROps eps cy false m ri l idx).
+Proof. exact spike_profile_multi_scale. Qed.
+Print Assumptions C08_spike_profile_multi_scale.
+Theorem C08_sync_profile_multi_shift : forall eps cy mt m c (l : list (@train R)) idx,
+  spike_sync_profile_multi ROps eps cy false mt m (map (shift_train c) l) idx
+  = rmap (shift_df c) (spike_sync_profile_multi ROps eps cy false mt m l idx).
+Proof. exact sync_profile_multi_shift. Qed.
+Print Assumptions C08_sync_profile_multi_shift.
+Theorem C08_sync_profile_multi_scale : forall eps cy mt m k (l : list (@train R)) idx, 0 < k ->
+  spike_sync_profile_multi ROps eps cy false (k * mt) (k * m) (map (scale_train k) l) idx
+  = rmap (scale_df k) (spike_sync_profile_multi ROps eps cy false mt m l idx).
+Proof. exact sync_profile_multi_scale. Qed.
+Print Assumptions C08_sync_profile_multi_scale.
+Theorem C08_order_profile_multi_shift : forall eps cy mt m c (l : list (@train R)) idx,
+  order_profile_multi ROps eps cy false mt m (map (shift_train c) l) idx
+  = rmap (shift_df c) (order_profile_multi ROps eps cy false mt m l idx).
+Proof. exact order_profile_multi_shift. Qed.
+Print Assumptions C08_order_profile_multi_shift.
+Theorem C08_order_profile_multi_scale : forall eps cy mt m k (l : list (@train R)) idx, 0 < k ->
+  order_profile_multi ROps eps cy false (k * mt) (k * m) (map (scale_train k) l) idx
+  = rmap (scale_df k) (order_profile_multi ROps eps cy false mt m l idx).
+Proof. exact order_profile_multi_scale. Qed.
+Print Assumptions C08_order_profile_multi_scale.
+
+(* ---- from Lem_API7.v ---- *)
+Theorem C08_isi_multi_shift_idx : forall eps cy m iv c l idx ts te,
+  Forall (vtrain ts te) l -> iv_ok ts te iv ->
+  isi_distance_multi ROps eps cy false m (shift_iv c iv) (map (shift_train c) l) idx
+  = isi_distance_multi ROps eps cy false m iv l idx.
+Proof. exact isi_multi_shift_idx. Qed.
+Print Assumptions C08_isi_multi_shift_idx.
+Theorem C08_spike_multi_shift_idx : forall eps cy m ri iv c l idx ts te,
+  Forall (vtrain ts te) l -> iv_ok ts te iv ->
+  spike_distance_multi ROps eps cy false m ri (shift_iv c iv) (map (shift_train c) l) idx
+  = spike_distance_multi ROps eps cy false m ri iv l idx.
+Proof. exact spike_multi_shift_idx. Qed.
+Print Assumptions C08_spike_multi_shift_idx.
+Theorem C08_sync_multi_shift_idx : forall eps cy mt m iv c l idx ts te,
+  Forall (vtrain ts te) l -> iv_ok ts te iv ->
+  spike_sync_multi ROps eps cy false mt m (shift_iv c iv) (map (shift_train c) l) idx
+  = spike_sync_multi ROps eps cy false mt m iv l idx.
+Proof. exact sync_multi_shift_idx. Qed.
+Print Assumptions C08_sync_multi_shift_idx.
+Theorem C08_order_multi_shift_idx : forall eps cy nrm mt m c l idx ts te,
+  Forall (vtrain ts te) l ->
+  spike_train_order_multi ROps eps cy false nrm mt m (map (shift_train c) l) idx
+  = spike_train_order_multi ROps eps cy false nrm mt m l idx.
+Proof. exact order_multi_shift_idx. Qed.
+Print Assumptions C08_order_multi_shift_idx.
+Theorem C08_isi_multi_scale_idx : forall eps cy m iv k l idx ts te, 0 < k ->
+  Forall (vtrain ts te) l -> iv_ok ts te iv ->
+  isi_distance_multi ROps eps cy false (k * m) (scale_iv k iv) (map (scale_train k) l) idx
+  = isi_distance_multi ROps eps cy false m iv l idx.
+Proof. exact isi_multi_scale_idx. Qed.
+Print Assumptions C08_isi_multi_scale_idx.
+Theorem C08_spike_multi_scale_idx : forall eps cy m ri iv k l idx ts te, 0 < k ->
+  Forall (vtrain ts te) l -> iv_ok ts te iv ->
+  spike_distance_multi ROps eps cy false (k * m) ri (scale_iv k iv) (map (scale_train k) l) idx
+  = spike_distance_multi ROps eps cy false m ri iv l idx.
+Proof. exact spike_multi_scale_idx. Qed.
+Print Assumptions C08_spike_multi_scale_idx.
+Theorem C08_sync_multi_scale_idx : forall eps cy mt m iv k l idx ts te, 0 < k ->
+  Forall (vtrain ts te) l -> iv_ok ts te iv ->
+  spike_sync_multi ROps eps cy false (k * mt) (k * m) (scale_iv k iv) (map (scale_train k) l) idx
+  = spike_sync_multi ROps eps cy false mt m iv l idx.
+Proof. exact sync_multi_scale_idx. Qed.
+Print Assumptions C08_sync_multi_scale_idx.
+Theorem C08_order_multi_scale_idx : forall eps cy nrm mt m k l idx ts te, 0 < k -> cy = true \/ 0 <= eps ->
+  Forall (vtrain ts te) l ->
+  spike_train_order_multi ROps eps cy false nrm (k * mt) (k * m) (map (scale_train k) l) idx
+  = spike_train_order_multi ROps eps cy false nrm mt m l idx.
+Proof. exact order_multi_scale_idx. Qed.
+Print Assumptions C08_order_multi_scale_idx.
+Theorem C08_isi_multi_mirror_idx : forall eps cy m l idx ts te, Forall (vtrain ts te) l ->
+  isi_distance_multi ROps eps cy false m None (map mirror_tr l) idx
+  = isi_distance_multi ROps eps cy false m None l idx.
+Proof. exact isi_multi_mirror_idx. Qed.
+Print Assumptions C08_isi_multi_mirror_idx.
+Theorem C08_spike_multi_mirror_idx : forall eps cy m ri l idx ts te, Forall (vtrain ts te) l ->
+  spike_distance_multi ROps eps cy false m ri None (map mirror_tr l) idx
+  = spike_distance_multi ROps eps cy false m ri None l idx.
+Proof. exact spike_multi_mirror_idx. Qed.
+Print Assumptions C08_spike_multi_mirror_idx.
+Theorem C08_sync_multi_mirror_idx : forall eps cy mt m l idx ts te, Forall (vtrain ts te) l ->
+  spike_sync_multi ROps eps cy false mt m None (map mirror_tr l) idx
+  = spike_sync_multi ROps eps cy false mt m None l idx.
+Proof. exact sync_multi_mirror_idx. Qed.
+Print Assumptions C08_sync_multi_mirror_idx.
+Theorem C08_order_multi_mirror_idx : forall eps cy mt m l idx ts te, Forall (vtrain ts te) l ->
+  spike_train_order_multi ROps eps cy false false mt m (map mirror_tr l) idx
+  = rmap Ropp (spike_train_order_multi ROps eps cy false false mt m l idx).
+Proof. exact order_multi_mirror_idx. Qed.
+Print Assumptions C08_order_multi_mirror_idx.
+
+(* ---- from Lem_API8.v ---- *)
+Theorem C08_isi_profile_multi_mirror : forall eps cy m l idx ts te, Forall (vtrain ts te) l ->
+  isi_profile_multi ROps eps cy false m (map mirror_tr l) idx
+  = rmap (mirror_pwc ts te) (isi_profile_multi ROps eps cy false m l idx).
+Proof. exact isi_profile_multi_mirror. Qed.
+Print Assumptions C08_isi_profile_multi_mirror.
+Theorem C08_spike_profile_multi_mirror : forall eps cy m ri l idx ts te, Forall (vtrain ts te) l ->
+  spike_profile_multi ROps eps cy false m ri (map mirror_tr l) idx
+  = rmap (mirror_pwl ts te) (spike_profile_multi ROps eps cy false m ri l idx).
+Proof. exact spike_profile_multi_mirror. Qed.
+Print Assumptions C08_spike_profile_multi_mirror.
+Theorem C08_sync_profile_multi_mirror : forall eps cy mt m l idx ts te, Forall (vtrain ts te) l ->
+  spike_sync_profile_multi ROps eps cy false mt m (map mirror_tr l) idx
+  = rmap (mirror_df ts te) (spike_sync_profile_multi ROps eps cy false mt m l idx).
+Proof. exact sync_profile_multi_mirror. Qed.
+Print Assumptions C08_sync_profile_multi_mirror.
+Theorem C08_order_profile_multi_mirror : forall eps cy mt m l idx ts te P, Forall (vtrain ts te) l ->
+  order_profile_multi ROps eps cy false mt m l idx = Ok P -> removelast (tl P) <> [] ->
+  order_profile_multi ROps eps cy false mt m (map mirror_tr l) idx = Ok (mirror_neg_df ts te P).
+Proof. exact order_profile_multi_mirror. Qed.
+Print Assumptions C08_order_profile_multi_mirror.
+Theorem C08_order_profile_multi_mirror_partial : forall eps cy mt m l idx ts te, Forall (vtrain ts te) l ->
+  match order_profile_multi ROps eps cy false mt m l idx,
+        order_profile_multi ROps eps cy false mt m (map mirror_tr l) idx with
+  | Ok P, Ok P' =>
+      removelast (tl P') = rev (map (gT ts te Ropp) (removelast (tl P)))
+      /\ (removelast (tl P) <> [] -> P' = mirror_neg_df ts te P)
+      /\ (removelast (tl P) = [] -> P' = P)
+  | Err e, Err e' => e = e'
+  | _, _ => False
+  end.
+Proof. exact order_profile_multi_mirror_partial. Qed.
+Print Assumptions C08_order_profile_multi_mirror_partial.
+
 Example C08_nonvacuous : valid 0 1 [1/4; 5/8; 1] /\ valid 0 1 [0] /\ valid 0 1 (mirror_train 0 1 [1/4; 5/8; 1]).
 Proof. split; [valid_tac|split; [valid_tac|]]. apply valid_mirror. valid_tac. Qed.
 
